@@ -40,10 +40,9 @@ def fraction_digits_of(x):
 
 
 def prune(x):
-    """null == absent: drop None members; containers emptied *by that* disappear too"""
+    """null == absent: drop None members; empty containers (also those emptied by that) count as absent too --
+    what an optional empty list/dict means to the loaders is judged by the semantic comparison"""
     if isinstance(x, dict):
-        if not x:
-            return x
         out = {}
         for k, v in x.items():
             p = prune(v)
@@ -51,8 +50,6 @@ def prune(x):
                 out[k] = p
         return out if out else _ABSENT
     if isinstance(x, list):
-        if not x:
-            return x
         out = [p for p in (prune(v) for v in x) if p is not _ABSENT]
         return out if out else _ABSENT
     if x is None:
